@@ -140,6 +140,68 @@ def path_set(v, prefix=()):
     return out
 
 
+def _plain_member(v):
+    """A member's value as comparable data: scalars and containers as they are, anything else (methods, objects) by kind."""
+    if isinstance(v, (int, float, str, bool)) or v is None:
+        return v
+    if isinstance(v, (list, tuple)):
+        return [_plain_member(x) for x in v]
+    if isinstance(v, dict):
+        if len(v) == 1 and not isinstance(list(v.keys())[0], (str, int)):
+            return "<object>"          # how a nested PyObj reads back: {class name node: {...}}
+        return {str(k): _plain_member(x) for k, x in v.items()}
+    return "<object>"
+
+
+def object_zoo():
+    """Instances of small class hierarchies: (label, object)."""
+    class Shape:
+        sides = 0
+        units = ["cm"]
+
+        def __init__(self):
+            self.name = "s"
+
+        @property
+        def label(self):
+            return "L%d" % self.sides
+
+    class Square(Shape):
+        sides = 4
+
+        def __init__(self):
+            super().__init__()
+            self.w = 2
+
+    class Unit(Square):
+        pass
+
+    class SlotBase:
+        __slots__ = ("a",)
+
+        def __init__(self):
+            self.a = 1
+
+    class SlotChild(SlotBase):
+        __slots__ = ("b",)
+
+        def __init__(self):
+            super().__init__()
+            self.b = [1, 2]
+
+    class Plain:
+        def __init__(self):
+            self.x, self.y = 1, "t"
+
+    class Mixin:
+        tag = "m"
+
+    class Both(Plain, Mixin):
+        z = 0.5
+    return [("Shape", Shape()), ("Square(Shape)", Square()), ("Unit(Square(Shape))", Unit()), ("SlotBase", SlotBase()),
+            ("SlotChild(SlotBase)", SlotChild()), ("Plain", Plain()), ("Both(Plain, Mixin)", Both())]
+
+
 def convert(g, entry, strategy, check, ignore):
     import graphtage
     from graphtage import builder as gbuilder
@@ -352,6 +414,43 @@ def run():
                               json.dumps(g), e, s, c, ig, v["clause"], rec["outcome"], rec["exc"]))
     chk.sample({"graph": keep[len(keep) // 2][0][0], "entry": keep[len(keep) // 2][0][1], "outcome": keep[len(keep) // 2][1]["outcome"],
                 "paths": keep[len(keep) // 2][1]["paths"][:8]})
+    # instances of user-defined classes (pydiff): every public member the object HAS - own, set by a base __init__, inherited
+    # class attributes, properties, base-class slots - is in the tree with its value (spec/Functional.tla: one value per key)
+    from harness import functional
+    ogroups, ometa = [], []
+    for label, obj in object_zoo():
+        want = {a: _plain_member(getattr(obj, a)) for a in dir(obj) if not a.startswith("__")}
+        for s_ in ("auto", "match", "none"):
+            import graphtage
+            from graphtage import pydiff
+            opts = graphtage.BuildOptions(allow_key_edits=(s_ != "none"), auto_match_keys=(s_ == "auto"))
+            for wrap in ("root", "in list", "as dict value"):
+                try:
+                    o2 = obj if wrap == "root" else [obj, 1] if wrap == "in list" else {"k": obj}
+                    tree = pydiff.build_tree(o2, opts)
+                    node = tree if wrap == "root" else list(tree.children())[0] if wrap == "in list" else None
+                    if node is None:
+                        got_all = tree.to_obj()
+                        node_obj = got_all["k"] if "k" in got_all else list(got_all.values())[0]
+                    else:
+                        node_obj = node.to_obj()
+                    members = list(node_obj.values())[0]
+                    got = {str(k): _plain_member(v) for k, v in members.items()}
+                    raised, why = False, ""
+                except Exception as ex:
+                    got, raised, why = {}, True, "%s: %s" % (type(ex).__name__, str(ex)[:100])
+                key = "object|%s|%s|%s" % (label, s_, wrap)
+                ogroups.append([{"k": key, "v": json.dumps(want, sort_keys=True, default=str), "raised": False, "how": "the object itself (dir / getattr)"},
+                                {"k": key, "v": json.dumps(got, sort_keys=True, default=str), "raised": raised, "how": "pydiff.build_tree " + why}])
+                ometa.append((label, s_, wrap))
+    overdicts, ost = functional.validate_groups(ogroups, name="C18-objects")
+    chk.add_trace_stats(ost, "FunctionalTrace", sum(len(g) for g in ogroups))
+    for (label, s_, wrap), g, v in zip(ometa, ogroups, overdicts):
+        chk.count(("object", label, s_, wrap))
+        if v["v"] != "ACCEPT":
+            chk.violation({"clause": "members-of-the-object-missing-or-different-in-the-tree", "entry": "pydiff", "strategy": s_},
+                          {"object": label, "strategy": s_, "wrap": wrap},
+                          "%s (%s, strategy %s): the tree has members %s, the object %s" % (label, wrap, s_, g[1]["v"][:300], g[0]["v"][:300]))
     chk.rule = ("cases = (object graph, entry point, dictionary strategy, cycle options): every graph enumerated by TLC "
                 "(objects of kind list/tuple/dict with slots pointing at any object or scalar: trees, DAGs with sharing, "
                 "self- and mutual cycles), materialised as Python objects and converted by json.build_tree, "
@@ -368,6 +467,9 @@ def replay(path):
     with open(path) as f:
         doc = json.load(f)
     rp = doc["replay"]
+    if "g" not in rp:
+        print("C18 replay: re-running the quick check; original case: %s" % json.dumps(rp, default=str)[:300])
+        return run()
     corpus._quiet_env()
     chk = Check("C18", "model_checking")
     rec = convert(rp["g"], rp["entry"], rp["strategy"], rp["check"], rp["ignore"])
